@@ -24,13 +24,20 @@ dpkg=$(python3 -c "
 import json,re
 m=json.load(open('$D/meta.json'))
 s=m.get('demo','')
-r=re.search(r'(\./pkg/[A-Za-z0-9_/]+)', s)
-print(r.group(1) if r else '')")
+if isinstance(s,dict): s=' '.join(str(v) for v in s.values())
+r=re.search(r'(\./(?:pkg|cmd)/[A-Za-z0-9_/]+)', s)
+print(r.group(1).rstrip('/') if r else '')")
+RACE=$(python3 -c "
+import json
+m=json.load(open('$D/meta.json'))
+s=m.get('demo','')
+if isinstance(s,dict): s=' '.join(str(v) for v in s.values())
+print('-race' if ' -race' in s else '')")
 [ -z "$dpkg" ] && dpkg=$(echo $pkgs | cut -d' ' -f1)
 cp $D/$demo $WT/$dpkg/
-with=$(cd $WT && go test -vet=off -count=1 -run 'Demo' $dpkg 2>&1 | tail -1)
+with=$(cd $WT && go test $RACE -vet=off -count=1 -run 'Demo' $dpkg 2>&1 | tail -1)
 git -C $WT checkout -q -- . 
-without=$(cd $WT && go test -vet=off -count=1 -run 'Demo' $dpkg 2>&1 | tail -1)
+without=$(cd $WT && go test $RACE -vet=off -count=1 -run 'Demo' $dpkg 2>&1 | tail -1)
 git -C $WT clean -fdq
 python3 - "$D/meta.json" "$build" "$tests" "$with" "$without" <<'PY'
 import json,sys
